@@ -145,6 +145,9 @@ func orchestrate() int {
 		if replay != nil && replay.Part != p.Name {
 			continue
 		}
+		if only := os.Getenv("VERIF_ONLY_PART"); only != "" && only != p.Name {
+			continue // development aid; registered commands never set it
+		}
 		bin := self
 		if p.Race {
 			if binRace == "" {
